@@ -108,3 +108,27 @@ Proof.
     unfold mzero. replace ((dst + ceil32 len <=? a) && (a <? dst + ceil32 len + 32)) with false by lia.
     reflexivity.
 Qed.
+
+(* the offset computed by the venom encoder: (len + 31) & ~31 on 256-bit words is ceil32 len *)
+Lemma land_mask_floor32 x : 0 <= x < 2 ^ 256 -> Z.land x (2 ^ 256 - 32) = x / 32 * 32.
+Proof.
+  intro Hx.
+  replace (2 ^ 256 - 32) with (Z.shiftl (Z.ones 251) 5) by (rewrite Z.shiftl_mul_pow2, Z.ones_equiv by lia; reflexivity).
+  replace (x / 32 * 32) with (Z.shiftl (Z.shiftr x 5) 5)
+    by (rewrite Z.shiftl_mul_pow2, Z.shiftr_div_pow2 by lia; reflexivity).
+  apply Z.bits_inj'. intros n Hn.
+  rewrite Z.land_spec, !Z.shiftl_spec by lia.
+  destruct (Z.ltb_spec n 5).
+  - rewrite (Z.testbit_neg_r _ (n - 5)) by lia. rewrite (Z.testbit_neg_r (Z.shiftr x 5)) by lia. apply andb_false_r.
+  - rewrite Z.shiftr_spec by lia. replace (n - 5 + 5) with n by lia.
+    destruct (Z.ltb_spec (n - 5) 251).
+    + rewrite Z.ones_spec_low by lia. apply andb_true_r.
+    + rewrite Z.ones_spec_high by lia. rewrite andb_false_r.
+      symmetry. apply Z.testbit_false. lia.
+      rewrite Z.div_small. reflexivity. split. lia.
+      apply Z.lt_le_trans with (2 ^ 256). lia. apply Z.pow_le_mono_r; lia.
+Qed.
+
+Theorem venom_last_word_offset : forall len, 0 <= len -> len + 31 < 2 ^ 256 ->
+  Z.land (len + 31) (2 ^ 256 - 32) = ceil32 len.
+Proof. intros len H0 H1. rewrite land_mask_floor32 by lia. reflexivity. Qed.
